@@ -432,6 +432,15 @@ func c06Documents(r *engine.Run) {
 				}
 				c06Doc(r, doc, acc, want, note)
 				n++
+				if !acc {
+					// a member that is refused alone is refused wherever it stands in a collection, whatever
+					// its siblings have already established about the dimension
+					p2, p3 := `{"type":"Point","coordinates":[7,8]}`, `{"type":"Point","coordinates":[7,8,9]}`
+					ls23 := `{"type":"LineString","coordinates":[[0,0],[1,1,1]]}`
+					for _, members := range [][]string{{p2, p3, doc}, {p3, p2, doc}, {ls23, doc}, {doc, p2, p3}, {p2, doc, p3}, {p3, doc}} {
+						c06Doc(r, `{"type":"GeometryCollection","geometries":[`+strings.Join(members, ",")+`]}`, false, nil, "refused-member-among-mixed-siblings")
+					}
+				}
 				if acc {
 					r.Nontrivial(doc)
 					// member order inside the object must not matter
